@@ -145,14 +145,16 @@ class Module:
         s.structs = {}; s.funcs = {}; s.globals = {}; s._cache = {}; s.decls = set()
         for m in re.finditer(r'^(%[\w.]+) = type (<?\{.*\}>?)$', text, re.M):
             s.structs[m.group(1)] = m.group(2)
-        for m in re.finditer(r'^(@[\w.]+) = .*?(?:constant|global) \[(\d+) x i8\] (c"((?:[^"\\]|\\[0-9A-Fa-f]{2})*)"|zeroinitializer)', text, re.M):
+        for m in re.finditer(r'^(@[\w.]+) = .*?(?:constant|global) \[(\d+) x i8\] (c"((?:[^"\\]|\\[0-9A-Fa-f]{2}|\\\\)*)"|zeroinitializer)', text, re.M):
             n = int(m.group(2))
             if m.group(3) == 'zeroinitializer':
                 bs = [0] * n
             else:
                 raw = m.group(4); bs = []; i = 0
                 while i < len(raw):
-                    if raw[i] == '\\':
+                    if raw[i] == '\\' and raw[i + 1] == '\\':
+                        bs.append(92); i += 2
+                    elif raw[i] == '\\':
                         bs.append(int(raw[i + 1:i + 3], 16)); i += 3
                     else:
                         bs.append(ord(raw[i])); i += 1
